@@ -279,18 +279,21 @@ ApplyLate(mm, ld) == [n \in Names |-> IF ld /\ n \in LateStale THEN Nil ELSE App
 \* reported just as it is after an installing round
 PollFinishR(xf, ld) ==
   /\ poll # Nil /\ poll.todo = {} /\ NoPollReq
-  /\ (xf => ~poll.failed /\ ~HasUpd /\ Flushes)
-  /\ (ld => ~poll.failed /\ LateStale # {} /\ ~xf)
-  /\ IF poll.failed
-     THEN /\ UNCHANGED <<m, cache>>
-          /\ hist' = [hist EXCEPT !.pollErrs = @ + 1]                             \* metric: polls that failed
-          /\ out' = Event("pollend", [res |-> "err", flushed |-> FALSE, waiters |-> poll.waiters])
-     ELSE /\ m' = ApplyLate(m, ld)
-          /\ cache' = IF HasUpd \/ xf \/ ld THEN Flush(m') ELSE cache
-          /\ hist' = [hist EXCEPT !.inst = [n \in Names |->
-                         IF poll.upd[n] \notin {Nil, Del} /\ IsRec(m'[n]) THEN Append(hist.inst[n], poll.upd[n]) ELSE hist.inst[n]]]
-          /\ out' = Event("pollend", [res |-> (IF (HasUpd \/ xf \/ ld) /\ Flushes /\ cache.wfail THEN "err" ELSE "ok"),
-                                      flushed |-> ((HasUpd \/ xf \/ ld) /\ Flushes), waiters |-> poll.waiters])
+  /\ (ld => ~poll.failed /\ LateStale # {})
+  /\ LET mn == ApplyLate(m, ld)
+         must == mn # m                        \* something was installed or dropped: the cache has to follow (C13)
+     IN
+     /\ (xf => ~poll.failed /\ ~must /\ Flushes)
+     /\ IF poll.failed
+        THEN /\ UNCHANGED <<m, cache>>
+             /\ hist' = [hist EXCEPT !.pollErrs = @ + 1]                             \* metric: polls that failed
+             /\ out' = Event("pollend", [res |-> "err", flushed |-> FALSE, waiters |-> poll.waiters])
+        ELSE /\ m' = mn
+             /\ cache' = IF must \/ xf THEN Flush(mn) ELSE cache
+             /\ hist' = [hist EXCEPT !.inst = [n \in Names |->
+                            IF poll.upd[n] \notin {Nil, Del} /\ IsRec(mn[n]) THEN Append(hist.inst[n], poll.upd[n]) ELSE hist.inst[n]]]
+             /\ out' = Event("pollend", [res |-> (IF (must \/ xf) /\ Flushes /\ cache.wfail THEN "err" ELSE "ok"),
+                                         flushed |-> ((must \/ xf) /\ Flushes), waiters |-> poll.waiters])
   /\ poll' = Nil
   /\ call' = [c \in Callers |-> IF c \in poll.waiters THEN Nil ELSE call[c]]
   /\ UNCHANGED <<cfg, svc, handles, phase, closed, ini, lk, rq, now>>
